@@ -51,8 +51,8 @@ package cmd
 // loaded (store.NewHead#post[tip-text])
 //@ func commitCmd.RunE
 //@   requires clientWF() && cmd != nil
-//@   requires [identity-loaded] store.oneLineConfig(client.Conf)
-//@   requires [branch-loaded] isFile(fs, store.refPath(client.RootGoitPath, client.Head.Reference)) ==> !contains(content(fs, store.refPath(client.RootGoitPath, client.Head.Reference)), "\n")
+//@   requires [identity-loaded] {C02} store.oneLineConfig(client.Conf)
+//@   requires [branch-loaded] {C02} isFile(fs, store.refPath(client.RootGoitPath, client.Head.Reference)) ==> !contains(content(fs, store.refPath(client.RootGoitPath, client.Head.Reference)), "\n")
 
 //@ func configCmd.PreRunE
 //@   returns err
